@@ -478,7 +478,14 @@ func partC04(a *hcli.Args, rep *report.Report, univName string, u *schema.Univer
 	if a.Shard == 0 {
 		var nilPtr *int
 		var nilMap map[string]interface{}
-		atoms := []interface{}{nil, true, 7, 2.5, "s", []byte("b"), nilPtr, make(chan int), nilMap, int32(3), struct{ X int }{1}}
+		type namedBytes []byte
+		type namedString string
+		type namedInt int64
+		type namedMap map[string]interface{}
+		type namedSlice []interface{}
+		ns := "p"
+		atoms := []interface{}{nil, true, 7, 2.5, "s", []byte("b"), nilPtr, make(chan int), nilMap, int32(3), struct{ X int }{1},
+			namedBytes("nb"), namedString("ns"), namedInt(4), namedMap{"a": 1}, namedSlice{1}, &ns, float32(1.5), uint8(3), (*[]interface{})(nil), [2]int{1, 2}}
 		var d1 []interface{}
 		d1 = append(d1, []interface{}{}, map[string]interface{}{})
 		for _, x := range atoms {
@@ -492,7 +499,7 @@ func partC04(a *hcli.Args, rep *report.Report, univName string, u *schema.Univer
 			d2 = append(d2, []interface{}{x}, map[string]interface{}{"a": x}, map[string]interface{}{"r": x}, map[string]interface{}{"b": x, "a": 1}, []interface{}{1, x})
 		}
 		all := append(append(append([]interface{}{}, atoms...), d1...), d2...)
-		s4.Bounds = fmt.Sprintf("%d Go value trees of depth<=2 over {nil, bool, int, float64, string, []byte, typed nil pointer, chan, nil map, struct} x %d reading programs through NewInterfaceReader", len(all), len(progs))
+		s4.Bounds = fmt.Sprintf("%d Go value trees of depth<=2 over {nil, bool, int, float64, string, []byte, typed nil pointers, chan, nil map, struct, named byte-slice / string / int / map / slice types, *string, float32, uint8, array} x %d reading programs through NewInterfaceReader", len(all), len(progs))
 		for _, val := range all {
 			s4.States++
 			v := val
